@@ -22,12 +22,20 @@ import (
 )
 
 type cexprGen struct {
-	r *hx.Rand
+	r       *hx.Rand
+	intVars []string // Soy variables the statement generator binds to integers / strings (extra leaves)
+	strVars []string
 }
 
 // kinds: 0 int, 1 str, 2 bool, 3 any
 func (g *cexprGen) expr(k, d int) string {
 	if d <= 0 || g.r.Chance(25) {
+		if k == 0 && len(g.intVars) > 0 && g.r.Chance(40) {
+			return "(cvar " + sx(g.r.Pick(g.intVars)) + ")"
+		}
+		if k == 1 && len(g.strVars) > 0 && g.r.Chance(40) {
+			return "(cvar " + sx(g.r.Pick(g.strVars)) + ")"
+		}
 		switch k {
 		case 0:
 			return g.r.Pick([]string{"(cint 0)", "(cint 1)", "(cint 7)", "(cint -3)", "(cint 1000)", "(cint 9007199254740991)",
